@@ -137,6 +137,7 @@ def concretise(case, fmt, rng):
     for m in media:
         m["part"] = [seg(s) for s in m.pop("sym")]
     anchors = []
+    pdf_turn = [rng.randrange(60)]
     for a in case["anchors"]:
         cands = [{"mode": t["mode"], "abs": bool(t["abs"]), "segs": [seg(s) for s in t["segs"]], "to": t["to"]}
                  for t in a["cands"]]
@@ -145,6 +146,12 @@ def concretise(case, fmt, rng):
         if fmt == "xlsx":
             an["atype"] = rng.choice(["one", "two", "abs"])
             an["ext"] = rng.choice([(100, 100), (952500, 476250), (1905000, 952500)])
+        if fmt == "pdf":
+            # the /Filter form of this image XObject: single name, one-element array, cascades; taken in turn
+            # (anchor position + a seeded offset): ~100 PDF documents per quick run cover every form many times
+            from ..c14_writers import PDF_FILTERS
+            forms = PDF_FILTERS["jpeg" if media[a["cands"][0]["to"] - 1]["kind"] == "jpeg" else "raw"]
+            an["pfilter"] = forms[(pdf_turn[0] + len(anchors)) % len(forms)]
         if fmt == "rtf":
             an["wrap"] = rng.choice([0, 0, 64, 128])
             an["blipuid"] = rng.random() < 0.3
@@ -160,7 +167,8 @@ def concretise(case, fmt, rng):
 def header(conc):
     return {"fmt": conc["fmt"], "base": conc["base"], "order": conc["order"],
             "media": [{"part": m["part"], "kind": m["kind"], "w": m["w"], "h": m["h"]} for m in conc["media"]],
-            "anchors": [{"unit": a["unit"], "cands": a["cands"], "fw": a["fw"], "fh": a["fh"]} for a in conc["anchors"]]}
+            "anchors": [dict({"unit": a["unit"], "cands": a["cands"], "fw": a["fw"], "fh": a["fh"]},
+                             **({"pfilter": a["pfilter"]} if "pfilter" in a else {})) for a in conc["anchors"]]}
 
 
 # ----------------------------------------------------------------------------- execution (worker side)
@@ -288,8 +296,9 @@ def describe(t, tv):
                 f"{[(r['m'], r['n'], r['u']) for r in evs[0]['D']]}, unit views "
                 f"{[(u['n'], [(r['m'], r['n'], r['u']) for r in u['imgs']]) for u in evs[0]['U']]}")
     what = "iterate_images()" if tv.reached == 0 else "unit get_images() views"
-    anchors = [(a["unit"], [("ext" if x["mode"] == "external" else ("inline:%d" % x["to"]) if x["mode"] == "inline"
-                             else ("/" if x["abs"] else "") + "/".join(x["segs"])) for x in a["cands"]]) for a in c["anchors"]]
+    anchors = [(a["unit"], [("ext" if x["mode"] == "external" else ("inline:%d%s" % (x["to"], " /Filter " + a["pfilter"] if "pfilter" in a else ""))
+                             if x["mode"] == "inline" else ("/" if x["abs"] else "") + "/".join(x["segs"])) for x in a["cands"]])
+               for a in c["anchors"]]
     media = [("/".join(m["part"]), m["kind"], m["w"], m["h"]) for m in c["media"]]
     return (f"{what} of a generated {c['fmt']} document violates Prop_Images: anchors (unit, targets) {anchors} "
             f"from base {'/'.join(c['base'])!r}, order {c['order']}, parts {media}; observed document view "
